@@ -35,6 +35,14 @@ func RunHistory(r *vkit.Run, caseIdx int, o Opts) {
 	if o.RootOnly {
 		opts = append(opts, part.RootOnlyWatch)
 	}
+	if o.LongKeys {
+		// nested stems: x^a, x^b (a < b), x^a y^c; lengths around the one-byte and the typical buffer boundaries
+		lens := []int{200, 255, 256, 257, 300, 1000, 4000}
+		a := lens[s.rng.IntN(len(lens))]
+		b := a + []int{1, 2, 255, 256, 1000}[s.rng.IntN(5)]
+		s.stems = [][]byte{bytes.Repeat([]byte{'x'}, a), bytes.Repeat([]byte{'x'}, b), append(bytes.Repeat([]byte{'x'}, a), bytes.Repeat([]byte{'y'}, 1+s.rng.IntN(300))...)}
+		s.maxL = 2
+	}
 	s.cur = part.New[uint64](opts...)
 	s.curModel = map[string]uint64{}
 	s.logf("alphabet=%d rootOnly=%v", ai, o.RootOnly)
